@@ -58,3 +58,9 @@ def tape_harness(name, tapes, extras, body, module_globals):
     fn._body = body
     module_globals[name] = fn
     return fn
+
+# MonkeyType logs swallowed tracer/serialisation failures; the log text is not part of any property
+import logging  # noqa: E402
+
+logging.getLogger("monkeytype").setLevel(logging.CRITICAL + 10)
+logging.getLogger("monkeytype").propagate = False
